@@ -194,7 +194,7 @@ def pbf_table_rules(fb, R):
                 if spec.packed:
                     rflags = {x.delta for x in c.packed}
                 else:
-                    rflags = {codec.enclosing_call(getattr(c, 'scalar_fn', c.fn), c.scalar_node, codec.DELTA_DEC) is not None} if c.scalar is not None else set()
+                    rflags = {codec.reaches_call(getattr(c, "scalar_fn", c.fn), c.scalar_node, codec.DELTA_DEC) is not None} if c.scalar is not None else set()
                 if not rflags or not wflags:
                     continue  # reported by the kind rules
                 ok = len(wflags) == 1 and len(rflags) == 1 and wflags == rflags
@@ -1244,10 +1244,10 @@ def delta_width_rules(fb, R, em, dc):
         need = PROTO_WIDTH[spec.ptype]
         nodes = [(x.fn, x.node) for x in c.packed if x.delta]
         sf = getattr(c, 'scalar_fn', c.fn)
-        if c.scalar is not None and codec.enclosing_call(sf, c.scalar_node, codec.DELTA_DEC) is not None:
+        if c.scalar is not None and codec.reaches_call(sf, c.scalar_node, codec.DELTA_DEC) is not None:
             nodes.append((sf, c.scalar_node))
         for (f, nid) in nodes:
-            call = codec.enclosing_call(f, nid, codec.DELTA_DEC)
+            call = codec.reaches_call(f, nid, codec.DELTA_DEC)
             vt, dt = _coder_types(fb, f, call)
             d, v = _int_type(dt), _int_type(vt)
             if d is None or v is None:
@@ -1392,13 +1392,21 @@ def writer_order_rules(fb, R):
                     '%s hands the caller\'s buffer `%s` to the output format without first flushing the items pending in %s: objects written '
                     'earlier with writer(item) come out after it' % (m.q, r[2], pend[0]['name']))
 
-    # ---- W2: an item that did not fit is appended only after the full buffer went out
+    # ---- W2: an item that did not fit is appended only after the full buffer went out: from the entry of a catch handler no
+    #          push_back into the pending buffer is reachable without passing a flush
     for (f, m) in bodies:
-        for c in f.all_nodes():
-            if c.get('k') == 'call' and c.get('q') == 'osmium::memory::Buffer::push_back' and c.get('recv') is not None and is_pending(f, c['recv']):
-                if f.enclosing_handlers(c['id']):
-                    R.check(dominated_by_flush(f, c['id']), 'writer-full-buffer-flushed-before-retry', '%s#retry' % m.q, f.loc(c['id']),
-                            '%s appends the item again after buffer_is_full without flushing %s first' % (m.q, pend[0]['name']))
+        pushes = {c['id'] for c in f.all_nodes() if c.get('k') == 'call' and c.get('q') == 'osmium::memory::Buffer::push_back'
+                  and c.get('recv') is not None and is_pending(f, c['recv']) and c['id'] in f.positions()}
+        if not pushes or not f.catch_entry_blocks():
+            continue
+        sites = set(flush_sites(f))
+        w = None
+        for cb in f.catch_entry_blocks():
+            w = w or path_search(f, cb, lambda x: x in pushes, lambda x: x in sites, from_block_start=True)
+        reach = any(f.positions()[p][0] in f.reachable_blocks(cb) for p in pushes for cb in f.catch_entry_blocks())
+        if reach:
+            R.check(w is None, 'writer-full-buffer-flushed-before-retry', '%s#retry' % m.q, f.loc(sorted(pushes)[0]),
+                    '%s appends the item again after buffer_is_full without flushing %s first: %s' % (m.q, pend[0]['name'], describe_path(f, w)))
 
     # ---- W3: the pending items go out before the end-of-file marker
     n_end = 0
